@@ -15,7 +15,7 @@ import (
 // those of equal order came out in another order than the document's.)
 func c16StableSorts(c *core.Check) {
 	p := c.Prog
-	r := c.Rule("R13", "ties keep document order: every call of a sort function of package sort in html/layout, html/document and html/boxes is stable (sort.SliceStable or sort.Stable, not sort.Slice or sort.Sort)", 4)
+	r := c.Rule("R13", "ties keep document order: every call of a sort function of package sort in html/layout, html/document and html/boxes is stable (sort.SliceStable or sort.Stable, not sort.Slice or sort.Sort)", 3)
 	n := 0
 	for _, pkg := range []string{"html/layout", "html/document", "html/boxes"} {
 		for _, fn := range p.FuncsOfPkg(pkg) {
